@@ -159,6 +159,13 @@ def reuse_scenario(sc):
         a, b = mpc.input([S(1111), S(2222)], senders=m - 1)
         await mpc.gather(a, b)
         buf = [a]
+        if sc.get('reuse') == 'receivers':
+            # the caller reuses its RECEIVERS list object: the designation in force at call time counts
+            R = list(R0)
+            f0 = mpc.output(buf, receivers=R)
+            R[:] = R1
+            f1 = mpc.output([b], receivers=R)
+            return await f0, await f1
         f0 = mpc.output(buf, receivers=R0)
         buf[0] = b
         f1 = mpc.output(buf, receivers=R1)
@@ -188,7 +195,8 @@ def reuse_cases(ctx, rng):
             if R0 == R1:
                 R1 = [(R0[0] + 1) % m]
             out.append({'m': m, 't': t, 'no_prss': rng.random() < 0.3, 'seed': rng.randrange(10**6), 'type': 'reuse',
-                        'mode': rng.choice(['random', 'starve', 'lazynet', 'eagernet']), 'R0': R0, 'R1': R1})
+                        'mode': rng.choice(['random', 'starve', 'lazynet', 'eagernet']), 'R0': R0, 'R1': R1,
+                        'reuse': 'receivers' if len(out) % 2 else 'values'})
     return out
 
 
